@@ -28,25 +28,50 @@ def _row(e):
             "conf_raw": e["conf_raw"], "issue": e["issue"], "rules": e["rules"], "out": e["out"], "input": e["argstr"]}
 
 
-def _mcs_rows(stages_file, run_id):
-    """positions that reached the MCS stage in a run and their sorted reactants"""
+def _mcs_rows(stages_file, run_id, bs=None):
+    """positions (in the call) that reached the MCS stage in a run and their sorted reactants"""
     cur = None
     out = {}
+    nbatch = 0
     with open(stages_file) as f:
         for line in f:
             e = json.loads(line)
             if e["ev"] == "run_begin":
                 cur = e["run"]
             elif e["ev"] == "stage" and cur == run_id and e["name"] == "mcs_search":
+                off = nbatch * bs if bs else 0
+                nbatch += 1
                 for pos, r in enumerate(e["rows"]):
                     if "mcs" in r:
                         m = r["mcs"]
-                        out[pos] = m["sorted_reactants"] if isinstance(m, dict) else None
+                        out[off + pos] = m["sorted_reactants"] if isinstance(m, dict) else None
     return out
 
 
-def fault_plans(mcs, rng, tier, n_jobs):
-    """fault plans over the job space of one batch: mcs = {pos: sorted_reactants or None}"""
+def fault_plans(mcs, rng, tier, n_jobs, bs=None):
+    """fault plans over the job space of one call: mcs = {pos: sorted_reactants or None}. With a batch size the
+    call is cut into batches and the search jobs are keyed by the row's id WITHIN its batch, so a planned fault
+    hits the same position of every batch: see _spread."""
+    plans = _fault_plans(mcs, rng, tier, n_jobs if bs is None else 0)
+    if bs is None:
+        return plans
+    return [_spread(plan, aff, mcs, bs) for plan, aff in plans]
+
+
+def _spread(plan, aff, mcs, bs):
+    rows = sorted(mcs)
+    out, aff2 = {}, set(aff)
+    for k, v in plan.items():
+        if k.startswith("search_"):
+            point, r, c = k.split(":")
+            out["%s:%d:%s" % (point, int(r) % bs, c)] = v
+            aff2 |= {q for q in rows if q % bs == int(r) % bs}
+        else:
+            out[k] = v
+    return out, aff2
+
+
+def _fault_plans(mcs, rng, tier, n_jobs):
     rows = sorted(mcs)
     plans = []
     sjobs = [(r, c) for r in rows for c in CONDS]
@@ -127,38 +152,41 @@ def run(tier):
     nid = 0
     jobs = []
     meta = []
-    combos = [(0, 1), (1, 4), (2, 1)] if tier == "quick" else [(0, 1), (1, 1), (0, 4), (1, 16), (2, 1), (2, 4)]
+    # (batch, worker count, batch size of the call)
+    combos = [(0, 1, None), (1, 4, None), (2, 1, None), (1, 1, 3)] if tier == "quick" else \
+        [(0, 1, None), (1, 1, None), (0, 4, None), (1, 16, None), (2, 1, None), (2, 4, None), (1, 1, 3), (2, 4, 2), (0, 1, 2)]
     # phase 1: fault-free reference per (batch, worker count) to learn which rows reach the MCS stage
     refs = {}
-    for bi, nj in combos:
-        pf = os.path.join(wd, "ref_%d_%d.json" % (bi, nj))
+    for bi, nj, bs in combos:
+        pf = os.path.join(wd, "ref_%d_%d_%s.json" % (bi, nj, bs))
         with open(pf, "w") as f:
-            json.dump({"runs": [{"name": "ref", "inputs": BATCHES[bi], "n_jobs": nj, "threshold": 0}]}, f)
-        lg = os.path.join(wd, "ref_%d_%d.ndjson" % (bi, nj))
+            json.dump({"runs": [{"name": "ref", "inputs": BATCHES[bi], "n_jobs": nj, "threshold": 0, "batch_size": bs}]}, f)
+        lg = os.path.join(wd, "ref_%d_%d_%s.ndjson" % (bi, nj, bs))
         common.run_driver("drv_pipeline", [pf, lg])
         rows = [e for e in common.read_ndjson(lg) if e["ev"] == "row"]
         if len(rows) != len(BATCHES[bi]):
             raise common.MachineryError("reference run lost rows")
-        refs[(bi, nj)] = (rows, _mcs_rows(lg + ".stages.ndjson", 1))
+        refs[(bi, nj, bs)] = (rows, _mcs_rows(lg + ".stages.ndjson", 1, bs))
     # phase 2: faulted runs, one driver process per combination
-    for bi, nj in combos:
-        rows, mcs = refs[(bi, nj)]
-        plans = fault_plans(mcs, rng, tier, nj)
-        runs = [{"name": "ref2", "inputs": BATCHES[bi], "n_jobs": nj, "threshold": 0}]
+    for bi, nj, bs in combos:
+        rows, mcs = refs[(bi, nj, bs)]
+        plans = fault_plans(mcs, rng, tier, nj, bs)
+        runs = [{"name": "ref2", "inputs": BATCHES[bi], "n_jobs": nj, "threshold": 0, "batch_size": bs}]
         for k, (plan, aff) in enumerate(plans):
-            runs.append({"name": "f%d" % k, "inputs": BATCHES[bi], "n_jobs": nj, "threshold": 0, "faults": plan})
-        pf = os.path.join(wd, "plan_%d_%d.json" % (bi, nj))
+            runs.append({"name": "f%d" % k, "inputs": BATCHES[bi], "n_jobs": nj, "threshold": 0, "faults": plan,
+                         "batch_size": bs})
+        pf = os.path.join(wd, "plan_%d_%d_%s.json" % (bi, nj, bs))
         with open(pf, "w") as f:
             json.dump({"runs": runs}, f)
-        lg = os.path.join(wd, "faulted_%d_%d.ndjson" % (bi, nj))
+        lg = os.path.join(wd, "faulted_%d_%d_%s.ndjson" % (bi, nj, bs))
         jobs.append(("drv_pipeline", [pf, lg], None))
-        meta.append((bi, nj, plans, lg))
+        meta.append((bi, nj, bs, plans, lg))
     common.run_drivers_parallel(jobs, timeout=4 * 3600)
     nplans = 0
-    for bi, nj, plans, lg in meta:
-        rows, mcs = refs[(bi, nj)]
+    for bi, nj, bs, plans, lg in meta:
+        rows, mcs = refs[(bi, nj, bs)]
         nid += 1
-        events.append({"ev": "ref", "id": nid, "batch": bi, "n_jobs": nj, "rows": [_row(e) for e in rows]})
+        events.append({"ev": "ref", "id": nid, "batch": bi, "n_jobs": nj, "bs": bs or 0, "rows": [_row(e) for e in rows]})
         by_run, raised = {}, {}
         for e in common.read_ndjson(lg):
             if e["ev"] == "row":
@@ -167,12 +195,12 @@ def run(tier):
                 raised[e["run"]] = e["raised"]
         # run 1 repeats the fault-free run in the same process: it must equal the reference
         nid += 1
-        events.append({"ev": "faulted", "id": nid, "batch": bi, "n_jobs": nj, "plan": {}, "affected": [],
+        events.append({"ev": "faulted", "id": nid, "batch": bi, "n_jobs": nj, "bs": bs or 0, "plan": {}, "affected": [],
                        "raised": raised.get(1, ""), "rows": [_row(e) for e in by_run.get(1, [])]})
         for k, (plan, aff) in enumerate(plans):
             nid += 1
             nplans += 1
-            events.append({"ev": "faulted", "id": nid, "batch": bi, "n_jobs": nj, "plan": plan,
+            events.append({"ev": "faulted", "id": nid, "batch": bi, "n_jobs": nj, "bs": bs or 0, "plan": plan,
                            "affected": sorted(p + 1 for p in aff), "raised": raised.get(k + 2, ""),
                            "rows": [_row(e) for e in by_run.get(k + 2, [])]})
     log = os.path.join(wd, "c11.ndjson")
@@ -185,17 +213,18 @@ def run(tier):
         x = e["rows"][pos - 1] if 1 <= pos <= len(e["rows"]) else {}
         refrow = None
         for r in events:
-            if r["ev"] == "ref" and r["batch"] == e["batch"] and r["n_jobs"] == e["n_jobs"] and 1 <= pos <= len(r["rows"]):
+            if r["ev"] == "ref" and r["batch"] == e["batch"] and r["n_jobs"] == e["n_jobs"] and r["bs"] == e["bs"] \
+                    and 1 <= pos <= len(r["rows"]):
                 refrow = {k: v for k, v in r["rows"][pos - 1].items() if k != "out"}
-        sig = "batch=%d n_jobs=%d plan=%s row=%s" % (e["batch"], e["n_jobs"], json.dumps(e["plan"], sort_keys=True),
-                                                    x.get("input"))
+        sig = "batch=%d n_jobs=%d%s plan=%s row=%s" % (e["batch"], e["n_jobs"], " bs=%d" % e["bs"] if e["bs"] else "",
+                                                      json.dumps(e["plan"], sort_keys=True), x.get("input"))
         kinds = sorted({("zombie" if "gate:" in str(v) else str(v)) if not k.startswith("open_at") else "zombie"
                         for k, v in e["plan"].items()})
         rep.fail(clause, sig, group="%s/%s" % (clause, "+".join(kinds) or "no-fault"),
                  detail={"plan": e["plan"], "affected_positions": e["affected"], "n_jobs": e["n_jobs"],
                          "row": {k: v for k, v in x.items() if k != "out"}, "reference_row": refrow,
                          "raised": e["raised"]},
-                 replay={"inputs": BATCHES[e["batch"]], "n_jobs": e["n_jobs"], "plan": e["plan"],
+                 replay={"inputs": BATCHES[e["batch"]], "n_jobs": e["n_jobs"], "plan": e["plan"], "batch_size": e["bs"] or None,
                          "affected": e["affected"]})
     zomb = sum(1 for e in events if e["ev"] == "faulted" and any(k.startswith("open_at") for k in e["plan"]))
     changed = 0
@@ -208,7 +237,7 @@ def run(tier):
             changed += 1
     rep.extra.update({"fault_plans_replayed": nplans, "zombie_schedules": zomb,
                       "plans_that_changed_an_affected_row": changed,
-                      "combinations": [{"batch": b, "n_jobs": j} for b, j in combos]})
+                      "combinations": [{"batch": b, "n_jobs": j, "batch_size": s_} for b, j, s_ in combos]})
     fl = [e for e in events if e["ev"] == "faulted" and e["plan"]]
     rep.sample({"plan": fl[0]["plan"], "affected": fl[0]["affected"],
                 "rows": [{k: v for k, v in r.items() if k in ("input", "solved", "issue")} for r in fl[0]["rows"]]})
@@ -227,9 +256,10 @@ def replay(path):
     wd = common.workdir("replay_tmp", fresh=True)
     pf = os.path.join(wd, "plan.json")
     with open(pf, "w") as f:
-        json.dump({"runs": [{"name": "ref", "inputs": rp["inputs"], "n_jobs": rp["n_jobs"], "threshold": 0},
+        json.dump({"runs": [{"name": "ref", "inputs": rp["inputs"], "n_jobs": rp["n_jobs"], "threshold": 0,
+                             "batch_size": rp.get("batch_size")},
                             {"name": "f", "inputs": rp["inputs"], "n_jobs": rp["n_jobs"], "threshold": 0,
-                             "faults": rp["plan"]}]}, f)
+                             "faults": rp["plan"], "batch_size": rp.get("batch_size")}]}, f)
     lg = os.path.join(wd, "r.ndjson")
     common.run_driver("drv_pipeline", [pf, lg])
     by_run, raised = {}, {}
